@@ -236,6 +236,28 @@ def declarations(P, chk):
                     "canonical = insert_canonical(name)?; for d in details { Alias(a) => insert_alias(a, canonical)? }")
 
 
+def format_target(P, chk):
+    """a `format` sub-directive sets the display / rounding precision of the commodity being declared"""
+    b = P.body(BK + "::ProcessAccumulator::process")
+    can_fn = "okane_core::report::commodity::CommodityStore::insert_canonical"
+    cans = [(bb, t) for bb, t in mir.call_sites(b, [can_fn]) if any(labs == ("Commodity",) for roots, labs in q.variant_guards(b, bb))]
+    sf = [(bb, t) for bb, t in b.calls() if (callee_def(t) or "").endswith("CommodityStore::set_format")]
+    ok = len(cans) == 1 and len(sf) == 1
+    detail = "expected one insert_canonical and one set_format on the Commodity arm, found %d / %d" % (len(cans), len(sf))
+    if ok:
+        cbb, ct = cans[0]
+        fbb, ft = sf[0]
+        okt = q.chain_ok(b, ft["args"][1], lambda r: r.kind == "call" and r.site == cbb, stop=True, allowed={"map_err", "map"})
+        okv = any(labs == ("Format",) for roots, labs in q.variant_guards(b, fbb))
+        cs = q.chains(b, ft["args"][2], stop=lambda r: "#Format" in r.fields)
+        okval = bool(cs) and all("#Format" in r.fields and "value" in r.fields for cn, r in cs)
+        ok = okt and okv and okval
+        detail = "format stored for the declared commodity=%s (target: %s), on the Format detail=%s, value is the format amount's number=%s" % (
+            okt, mir.prov_strs(b, ft["args"][1]), okv, okval)
+    chk.require(ok, R_DECL, "process|Commodity declaration: format belongs to the declared commodity", b.loc(sf[0][0]) if sf else b.loc(), detail,
+                "set_format(canonical, format_amount.value)")
+
+
 def names_resolve(P, chk):
     a = P.body(BK + "::add_transaction")
     # Posting.account comes from ensure(posting.account)
@@ -270,6 +292,7 @@ def run(P, chk, tier):
     who_may(P, chk)
     facades(P, chk)
     declarations(P, chk)
+    format_target(P, chk)
     names_resolve(P, chk)
     table = common.load_table("err_chain.toml")
     entries = {e["key"]: e for e in table.get("site", [])}
